@@ -9,6 +9,8 @@ TECH = {
  "C01": "static analysis: THIR/MIR rules over the autograd engine and all backward closures (slot arity+gating, Boolean evaluation of every attach guard incl. the attach primitives, shared-slot clone provenance, counter-guard control dependence, shape typestate, additive merge)",
  "C02": "static analysis: parameter-dependence taint, linearity type system and accumulate-on-scatter rule over every backward closure; symbolic differentiation of every element-wise forward map compared with its backward slot in an exact rational-function algebra (sibling cross-check, nothing executed); symbolic shape type system for the matrix product's deltas and for single-operand sliced_op calls under all transposition flags; axis (units-of-measure) type system for the convolution index arithmetic and sibling agreement of the window-count formula; reduce-last rule (THIR via rustc_private driver)",
  "C03": "static analysis: shape typestate over the engine's delta/gradient sinks (THIR dataflow)",
+ "C05": "static analysis: load / store indices of the matrix-product kernel translated from THIR into integer polynomials (lets resolved, flag conditionals folded per assignment) and compared with the row-major positions of op(A)[r,k], op(B)[k,j], C[r,j]; symbolic evaluation of the dimension reads under each transposition assignment",
+ "C06": "static analysis: load / store indices of im2col and of the output transposition as integer polynomials (running counter = lexicographic rank of the loop nest) compared with the documented sliding-window positions; axis (units-of-measure) typing and window-count formula agreement",
  "C07": "static analysis: forward maps of the point-wise functions, softmax, sum_all and reshape translated from THIR into an exact rational-function algebra and compared with the documented definitions; constructor funnel for reshape's refusal",
  "C08": "static analysis: type walk for interior mutability, unsafe scan, MIR place-context scan for writes/mutable borrows, public-API signature scan, destructor scan",
  "C09": "static analysis: exhaustive Boolean evaluation of every constructor's attach guard, slot gating, flag-writer inventory and stop/restore pairing",
@@ -28,8 +30,6 @@ NOTE = {p: "Trusted: rustc front end/type+borrow checker, std Rc/Cell/RefCell co
         for p in TECH}
 NA = [
  ("C04", "decides values produced by a runtime-shape index walk (sliced_op); no sound static argument in reach short of a functional-correctness proof; static analysis family does not apply"),
- ("C05", "numeric result of shape derivation plus a triple loop over runtime sizes; not decidable from code shape"),
- ("C06", "numeric result of three composed index permutations over runtime sizes; not decidable from code shape"),
 ]
 
 def implemented(p):
